@@ -838,7 +838,8 @@ class Variant(VariantBase):
         self._assert_not_blank("arches")
 
     def _validate_parent_arch(self):
-        if not self.parent:
+        # compare with None: a parent without children yet has zero length and is falsy
+        if self.parent is None:
             return
         for arch in self.arches:
             if arch not in self.parent.arches:
